@@ -254,6 +254,7 @@ fn via_file(ctx: &mut Ctx, enc: Enc) {
     }
     // the stream parser copies the bytes, so its notes are compared by content with the reference walk
     // of an identical copy: collect owned dumps from both and compare
+    #[cfg(feature = "elf_std")]
     if let Ok(mut st) = super::util::open_stream(data) {
         let shs = *st.section_headers().get(idx).unwrap();
         let phs = *st.segments().first().unwrap();
